@@ -348,6 +348,6 @@ def shards(tier):
                 out.append({'name': f'timedate {cfg} with wake-up latency boundary={bidx}', 'scenario': 'scen_timedate',
                             'params': {'cfg': cfg, 'base': 'mid', 'utc': False, 'nobs': 1, 'bidx': bidx, 'latency': True},
                             'cost': 50})
-    for cfg in ('plain', 'nothing', 'span-empty', 'only-weekdays'):
+    for cfg in (('plain', 'span-empty') if tier == 'quick' else ('plain', 'nothing', 'span-empty', 'only-weekdays')):
         out.append({'name': f'clock jump {cfg}', 'scenario': 'scen_jump', 'params': {'cfg': cfg, 'base': 'mid'}, 'cost': 30})
     return out
